@@ -415,13 +415,15 @@ pub struct Case {
     pub expect: String,
     pub gate: String,
     pub what: String,
+    /// xq: canonical content of the selected nodes as the generator knows them (wrapped in `w`), or empty
+    pub sel: String,
 }
 
 impl Case {
     pub fn to_line(&self) -> String {
         let argv: Vec<String> = self.argv.iter().map(|a| enc(a)).collect();
         format!(
-            "case id={} tool={} argv={} doc={} kind={} expect={} gate={} what={}",
+            "case id={} tool={} argv={} doc={} kind={} expect={} gate={} sel={} what={}",
             self.id,
             self.tool,
             argv.join(","),
@@ -429,6 +431,7 @@ impl Case {
             self.expect_kind,
             enc(&self.expect),
             if self.gate.is_empty() { "-".to_string() } else { self.gate.clone() },
+            enc(&self.sel),
             enc(&self.what)
         )
     }
@@ -806,6 +809,7 @@ pub fn gen_case(seed: u64, id: u64) -> Case {
     let bad = rng.below(100);
     let mut expect_kind = String::new();
     let mut expect = String::new();
+    let mut sel = String::new();
     let mut value = String::new();
     let mut vkids: Vec<G> = vec![];
     if tool == "xe" {
@@ -967,6 +971,19 @@ pub fn gen_case(seed: u64, id: u64) -> Case {
                 Some(s) => {
                     expect_kind = "stdout".into();
                     expect = s;
+                    // what the printed text must denote, from the generator's tree (not from the library's printer)
+                    let has_doctype = pre.iter().any(|k| matches!(k, G::DocType(..)));
+                    if attr.is_none() && !text_runs && !has_doctype {
+                        let mut c = String::from("E(\"w\"[");
+                        for p in &paths {
+                            if let Some(g) = get(&root, p) {
+                                canon_kids(std::slice::from_ref(g), &mut c);
+                                c.push_str("T(\"\\n\")");
+                            }
+                        }
+                        c.push_str("])");
+                        sel = c;
+                    }
                 }
                 None => {
                     expect_kind = "any".into();
@@ -1037,7 +1054,7 @@ pub fn gen_case(seed: u64, id: u64) -> Case {
             }
         }
     }
-    Case { id, tool: tool.to_string(), argv, doc, expect_kind, expect, gate, what }
+    Case { id, tool: tool.to_string(), argv, doc, expect_kind, expect, gate, what, sel }
 }
 
 fn value_has(v: &[G], f: fn(&G) -> bool) -> bool {
